@@ -42,6 +42,8 @@ MANIFEST = dict(
          "only fire when the summary's own size is set to 0. Tie: header/table corruptions of real images use value sets (boundaries, bit flips, neighbours, the "
          "two proved families and their edges) AND uniformly random 64-/32-bit values per field; each is loaded by the real loader under ASan/UBSan and by the "
          "model (must agree), and the driver recomputes the theorems' closed-form verdict for each and compares it with the loader model (THM token). "
+         "file_api_gives_back_handle: the bodies of yr_rules_load / yr_rules_save (translated statement by statement from rules.c on every run) hold no FILE "
+         "handle when they return, for every outcome of fopen and of the stream call. "
          "FILE-NAME API (h_loadfile): the same truncations and single-field corruptions are written to files and loaded by path with yr_rules_load; each call "
          "must return the stream API's error code on the same bytes, hand back no rule set, and give back every descriptor it opened (entries of "
          "/proc/self/fd before/after each rejected and each accepted load and after yr_rules_destroy; LeakSanitizer's recoverable check after every call); the "
@@ -328,7 +330,7 @@ def file_campaign(chk, b, tier, r, images, findings, replay_line=None):
 
 def run(tier, replay=None):
     chk = core.Check(PID, tier)
-    th = core.run_translators(["arenalayout"])
+    th = core.run_translators(["arenalayout", "rulesfile"])
     lres = core.lean_check(THM)
     core.proof_coverage(chk, lres, THM, th)
     b = core.build("asan", harness=["h_grow", "h_load", "h_arena", "h_loadfile"], **ac.REC)
